@@ -24,7 +24,7 @@ DEFAULT_SEED = 1212
 RUNS = {"quick": 1500, "thorough": 90000}
 JOBS = {"quick": 8, "thorough": 16}
 SEARCH_SPACE = "world states x level predicates (<=, <, interval, ==, !=) x optional value/position predicates x presence of other groups (no faults)"
-RULE = ("one run = one world + one level predicate (optionally ANDed with one value and/or one position predicate), loaded once by a fresh dataset; "
+RULE = ("one run = one world + one level predicate (optionally ANDed with one value and/or one position predicate), loaded by a fresh dataset (in 30% of the runs a second fresh dataset is given the same select dictionary object again); "
         "distinct = hash of (world, predicates); non-trivial = the highest accepted level L is below levelmax and at least one level-L cell is refined on disk")
 ASSUMPTIONS = [
     "a predicate accepting no level is outside the property (the loader cannot define L) and is not generated",
@@ -64,7 +64,8 @@ def generate(rng, tier):
 
         kind = rng.choice(["leaf", "few", "few"])
         preds["intervals"] = [gen_interval(rng, c, p["levelmax"], kind=kind) for c in "xyz"]
-    return {"world": p, "preds": preds, "also": rng.choice([None, None, "part_off", "sink_off", "mesh_vars"])}
+    # "again": the caller keeps the select dictionary and passes the same object to a second load (a fresh dataset of the same output)
+    return {"world": p, "preds": preds, "also": rng.choice([None, None, "part_off", "sink_off", "mesh_vars"]), "again": rng.random() < 0.3}
 
 
 def describe(case):
@@ -97,6 +98,28 @@ def execute(case, stats):
             select["part"] = False
         elif case["also"] == "sink_off":
             select["sink"] = False
+        sel_items = None
+        for attempt in (["first", "again"] if case.get("again") else ["first"]):
+            if attempt == "again":
+                stats.inc("probe.second_load_with_the_same_select_object")
+            n0 = len(viol)
+            _one_load(case, stats, disk, select, sel_items, L, attempt, V, res)
+            if len(viol) > n0:
+                for v in viol[n0:]:
+                    if attempt == "again":
+                        v["clause"] = v["clause"] + "@again"
+                        v["key"] = dict(v["key"], clause=v["clause"])
+                break
+    res["signature"] = core.digest(case)[:20]
+    return res
+
+
+def _one_load(case, stats, disk, select, sel_items, L, attempt, V, res):
+    p = case["world"]
+    pr = case["preds"]
+    w = disk.world
+    viol = res["violations"]
+    if True:
         try:
             seam = FsSeam()
             ds, out = disk.load(seam=seam, select=select)
@@ -128,7 +151,6 @@ def execute(case, stats):
             # nothing qualifies: an empty (or key-less) mesh group is the only acceptable outcome
             if "mesh" in ds and "level" in ds["mesh"] and len(ds["mesh"]["level"]):
                 V("rows", "extra", {"n": len(ds["mesh"]["level"]), "expected": 0})
-            res["signature"] = core.digest(case)[:20]
             return res
         for cls, clause, detail in compare_full(ds, w, expect_rows=expect):
             V(cls, clause, dict(detail, L=L, levelmax=w.levelmax))
@@ -142,7 +164,6 @@ def execute(case, stats):
             stats.inc("probe.tiling_checked")
         if not viol and ds.meta.get("ncells") != len(ds["mesh"]["level"]):
             V("meta", "ncells", {"meta": int(ds.meta.get("ncells", -1)), "rows": len(ds["mesh"]["level"])})
-    res["signature"] = core.digest(case)[:20]
     return res
 
 
@@ -151,7 +172,7 @@ def measure(case):
     pr = case["preds"]
     return (p["ncpu"], p["levelmax"], p["ndim"], len(pr["values"]) + len(pr["positions"]) + len(pr.get("intervals", [])), len(p["hydro_vars"]), p["maxcells"], p["nboundary"],
             int(bool(p["grav"])) + int(bool(p["rt_vars"])) + int(p["part"] is not None) + int(p["sink"] is not None),
-            int(p["units"] != [1.0, 1.0, 1.0]), int(p["ghost_p"] * 10), int(case["also"] is not None), int(pr["level"]["kind"] != "le"))
+            int(p["units"] != [1.0, 1.0, 1.0]), int(p["ghost_p"] * 10), int(case["also"] is not None), int(pr["level"]["kind"] != "le"), int(bool(case.get("again"))))
 
 
 def reductions(case, viol):
@@ -172,6 +193,8 @@ def reductions(case, viol):
         yield dict(case, preds=dict(pr, intervals=[]))
     if case["also"]:
         yield dict(case, also=None)
+    if case.get("again"):
+        yield dict(case, again=False)
     if pr["level"]["kind"] != "le":
         for k in range(1, case["world"]["levelmax"] + 1):
             yield dict(case, preds=dict(pr, level={"kind": "le", "k": k}))
